@@ -146,7 +146,7 @@ structure Election where
   req : VoteReq
   delivered : List NodeId
   replies : List (NodeId × VoteResp)
-  collected : List VoteResp
+  collected : List (NodeId × VoteResp)       -- responses that came back, in arrival order (voter id kept as ghost)
 deriving Repr
 
 structure Node where
@@ -457,6 +457,7 @@ structure Cluster where
   leaderTerms : List (Nat × NodeId) := []  -- (term, node) of every `BecomeLeader`, newest first
   commits : List (Nat × Log) := []         -- (leader term, committed prefix) whenever a leader's commit index advanced
   acked : List (Entry × Nat) := []         -- client writes answered with success: (entry, leader term), oldest first
+  grants : List (NodeId × Nat × NodeId) := []  -- (voter, term, candidate) of every vote ever granted (incl. self votes)
 
 def Cluster.init (n cap : Nat) : Cluster :=
   { n := n, cap := cap, nodes := fun _ => {}, msgs := [] }
@@ -513,7 +514,8 @@ def stepTick (c : Cluster) (i : NodeId) : Cluster × List String :=
     | .follower => ({ c with nodes := setNode c.nodes i { nd with role := .candidate } }, ["tick:follower"])
     | .candidate =>
       if c.n == 1 then (c, ["tick:single"])
-      else ({ c with nodes := setNode c.nodes i (startElection i nd) }, ["tick:candidate"])
+      else ({ c with nodes := setNode c.nodes i (startElection i nd), grants := (i, nd.term + 1, i) :: c.grants },
+            ["tick:candidate"])
     | .leader => (leaderRound c i nd none, ["tick:leader"])
 
 def stepVoteReq (c : Cluster) (cand p : NodeId) : Cluster × List String :=
@@ -526,7 +528,7 @@ def stepVoteReq (c : Cluster) (cand p : NodeId) : Cluster × List String :=
       let (pn', resp, tag) := onVoteRequest pn el.req
       let el' := { el with delivered := p :: el.delivered, replies := el.replies ++ [(p, resp)] }
       let nodes := setNode (setNode c.nodes p pn') cand { cn with election := some el' }
-      ({ c with nodes := nodes }, [tag])
+      ({ c with nodes := nodes, grants := if resp.granted then (p, el.req.term, cand) :: c.grants else c.grants }, [tag])
   | none => (c, ["vq:disabled"])
 
 def stepVoteResp (c : Cluster) (cand p : NodeId) : Cluster × List String :=
@@ -537,7 +539,7 @@ def stepVoteResp (c : Cluster) (cand p : NodeId) : Cluster × List String :=
     | some (_, r) =>
       if !(c.valid cand && cn.up) then (c, ["vr:disabled"])
       else
-        let el' := { el with replies := el.replies.filter (fun x => x.1 != p), collected := el.collected ++ [r] }
+        let el' := { el with replies := el.replies.filter (fun x => x.1 != p), collected := el.collected ++ [(p, r)] }
         ({ c with nodes := setNode c.nodes cand { cn with election := some el' } }, ["vr:ok"])
     | none => (c, ["vr:disabled"])
   | none => (c, ["vr:disabled"])
@@ -554,7 +556,7 @@ def stepVoteEnd (c : Cluster) (i : NodeId) : Cluster × List String :=
     if !(c.valid i && nd.up) then (c, ["ve:disabled"])
     else
       let nd0 := { nd with election := none }
-      match tally c.n el.req el.collected 1 with
+      match tally c.n el.req (el.collected.map (·.2)) 1 with
       | .won =>
         (leaderRound { c with leaderTerms := (nd.term, i) :: c.leaderTerms } i (asLeader i c.n nd) (some 0), ["ve:won"])
       | .higherTerm t => ({ c with nodes := setNode c.nodes i (becomeFollower { nd0 with term := t }) }, ["ve:higher-term"])
@@ -696,8 +698,9 @@ def stepStart (c : Cluster) (i : NodeId) : Cluster × List String :=
   let nd := c.nodes i
   if !(c.valid i && !nd.up) then (c, ["up:disabled"])
   else
-    let (t, v) := nd.hard.getD (1, none)
-    ({ c with nodes := setNode c.nodes i { nd with up := true, role := .follower, term := t, vote := v, pendingWrites := [], pendingApply := [] } }, ["up:ok"])
+    -- term and vote are in the meta store since their last change (`hard` = (term, vote) of the stopped node)
+    ({ c with nodes := setNode c.nodes i { nd with up := true, role := .follower, pendingWrites := [], pendingApply := [] } },
+     ["up:ok"])
 
 def step (c : Cluster) : Event → Cluster × List String
   | .tick i => stepTick c i
